@@ -45,6 +45,11 @@ from . import sources as S  # noqa: E402
 
 warnings.filterwarnings("ignore")
 
+# replay option "alt": the same moves through the alternative documented API forms - left_join / inner_join / full_join instead of
+# join(how=), explicit pdt.lit(..) instead of python literals, the method aliases key.rank() / key.dense_rank() instead of
+# pdt.rank(arrange=key), x.is_in([..]) / coalesce with a literal as pdt.lit, filter(p, q) as one conjunction
+ALT_FORMS = False
+
 PL_TYPES = {"int32": pl.Int32, "int8": pl.Int8, "uint16": pl.UInt16, "uint64": pl.UInt64, "float32": pl.Float32, "int": pl.Int64, "bool": pl.Boolean, "str": pl.String, "float": pl.Float64, "date": pl.Date, "datetime": pl.Datetime("us")}
 PDT_TYPES = {"int": pdt.Int64, "bool": pdt.Bool, "str": pdt.String, "float": pdt.Float64, "date": pdt.Date, "datetime": pdt.Datetime}
 
@@ -265,6 +270,9 @@ class ExprBuilder:
             op = e["op"]
             if op == "row_number":
                 return pdt.row_number(**kw)
+            if ALT_FORMS and op in ("rank", "dense_rank") and len(e["ord"]) == 1:
+                key = self.order(e["ord"][0])
+                return getattr(key, op)(**({"partition_by": kw["partition_by"]} if "partition_by" in kw else {}))
             if op == "rank":
                 return pdt.rank(**kw)
             if op == "dense_rank":
@@ -286,7 +294,7 @@ class ExprBuilder:
         op = e["op"]
         raw = e["a"]
         # the first operand must be a ColExpr so that python dispatches to the DSL
-        a = [self.build(raw[0], top=True)] + [self.build(x) for x in raw[1:]]
+        a = [self.build(raw[0], top=True)] + [self.build(x, top=ALT_FORMS) for x in raw[1:]]
         binops = {
             "add": lambda x, y: x + y, "sub": lambda x, y: x - y, "mul": lambda x, y: x * y,
             "truediv": lambda x, y: x / y, "floordiv": lambda x, y: x // y, "mod": lambda x, y: x % y,
@@ -399,6 +407,9 @@ def apply_move(m: dict, heap: list, colmap: dict, pool: dict | None = None):
         if v == "cross_join":
             return t >> cross_join(r, **kw)
         on = [x["n"] if x["k"] == "str" else b.build(x, top=True) for x in m["on"]]
+        if ALT_FORMS and m["how"] in ("left", "inner", "full"):
+            fn = {"left": left_join, "inner": inner_join, "full": full_join}[m["how"]]
+            return t >> fn(r, on if len(on) != 1 else on[0], **kw)
         if pool is not None:
             # the caller keeps ONE list object for this `on` argument (fingerprinted before / after every call: C10)
             import json as _json
